@@ -488,3 +488,70 @@ case("c18-iterative-ladder-wrong-start", ["C18"], SECPF, _REC, _ITER.replace("n.
 for _t in ("rename-locals", "flip-comparisons", "square-spelling", "if-else-returns"):
     CASES.append({"id": f"all-twin-{_t}", "props": [f"C{i:02d}" for i in range(1, 21)], "edits": [], "expect": "silent",
                   "rule": None, "transform": _t})
+
+# ---------------------------------------------------------------- shared state: memo tables and shared hash objects
+_XMD_HEAD = "    b_in_bytes = hash_function().digest_size\n"
+_XMD_TAIL = "    pseudo_random_bytes = b\"\".join(b)\n    return pseudo_random_bytes[:len_in_bytes]"
+_XMD_DEF = "def expand_message_xmd(\n"
+ALLP = [f"C{i:02d}" for i in range(1, 21)]
+# a memo keyed by everything the result depends on changes no result: silent everywhere, C20 included
+case("memo-twin-xmd-complete-key", ALLP, HASHF, _XMD_HEAD,
+     "    memo_key = (bytes(msg), bytes(DST), len_in_bytes, hash_function)\n    hit = _XMD_MEMO.get(memo_key)\n"
+     "    if hit is not None:\n        return hit\n" + _XMD_HEAD, expect="silent",
+     more=[(HASHF, _XMD_TAIL, "    pseudo_random_bytes = b\"\".join(b)\n    out = pseudo_random_bytes[:len_in_bytes]\n"
+                              "    if len(_XMD_MEMO) > 64:\n        _XMD_MEMO.clear()\n    _XMD_MEMO[memo_key] = out\n    return out", 1),
+           (HASHF, _XMD_DEF, "_XMD_MEMO: dict = {}\n\n\n" + _XMD_DEF, 1)])
+# the same table keyed without the requested length (which enters b_0): a later call with another length gets the first one's bytes
+case("memo-xmd-key-omits-length", ["C15", "C10", "C20"], HASHF, _XMD_HEAD,
+     "    memo_key = (bytes(msg), bytes(DST), hash_function)\n    hit = _XMD_MEMO.get(memo_key)\n"
+     "    if hit is not None:\n        return hit\n" + _XMD_HEAD, rule=None,
+     more=[(HASHF, _XMD_TAIL, "    pseudo_random_bytes = b\"\".join(b)\n    out = pseudo_random_bytes[:len_in_bytes]\n"
+                              "    _XMD_MEMO[memo_key] = out\n    return out", 1),
+           (HASHF, _XMD_DEF, "_XMD_MEMO: dict = {}\n\n\n" + _XMD_DEF, 1)])
+# complete key, but a hit is post-processed differently from a fresh value: cannot be pruned, and C20 keeps its alarm
+case("memo-xmd-hit-processed-differently", ["C20"], HASHF, _XMD_HEAD,
+     "    memo_key = (bytes(msg), bytes(DST), len_in_bytes, hash_function)\n    hit = _XMD_MEMO.get(memo_key)\n"
+     "    if hit is not None:\n        return hit[:-1]\n" + _XMD_HEAD, rule=None,
+     more=[(HASHF, _XMD_TAIL, "    pseudo_random_bytes = b\"\".join(b)\n    out = pseudo_random_bytes[:len_in_bytes]\n"
+                              "    _XMD_MEMO[memo_key] = out\n    return out", 1),
+           (HASHF, _XMD_DEF, "_XMD_MEMO: dict = {}\n\n\n" + _XMD_DEF, 1)])
+# subgroup_check memo keyed by the whole projective triple (sound) / by the affine x only (unsound)
+_SGC = "    return is_inf(multiply(P, curve_order))"
+_SGC_DEF = "def subgroup_check(P: Optimized_Point3D[Optimized_Field]) -> bool:\n"
+case("memo-twin-subgroup-check-keyed-by-point", ALLP, G2P, _SGC,
+     "    verdict = _SGC_MEMO.get(P)\n    if verdict is None:\n        verdict = is_inf(multiply(P, curve_order))\n"
+     "        _SGC_MEMO[P] = verdict\n    return verdict", expect="silent",
+     more=[(G2P, _SGC_DEF, "_SGC_MEMO: dict = {}\n\n\n" + _SGC_DEF, 1)])
+case("memo-subgroup-check-keyed-by-x", ["C17", "C04", "C20"], G2P, _SGC,
+     "    k = repr(P[0] / P[2])\n    verdict = _SGC_MEMO.get(k)\n    if verdict is None:\n        verdict = is_inf(multiply(P, curve_order))\n"
+     "        _SGC_MEMO[k] = verdict\n    return verdict",
+     more=[(G2P, _SGC_DEF, "_SGC_MEMO: dict = {}\n\n\n" + _SGC_DEF, 1)])
+# HKDF-Extract on a module-level HMAC object: updated in place (state) / copied first (pure)
+_HK = "    return hmac.new(salt, ikm, hashlib.sha256).digest()"
+_HKDEF = "def hkdf_extract("
+case("shared-hmac-updated-in-place", ["C16", "C20"], HASHF, _HK,
+     "    mac = _UNSALTED if len(salt) == 0 else hmac.new(salt, digestmod=hashlib.sha256)\n    mac.update(ikm)\n    return mac.digest()",
+     more=[(HASHF, _HKDEF, "_UNSALTED = hmac.new(b\"\", digestmod=hashlib.sha256)\n\n\n" + _HKDEF, 1)])
+case("shared-hmac-twin-copied-first", ["C16", "C01", "C20"], HASHF, _HK,
+     "    mac = _UNSALTED.copy() if len(salt) == 0 else hmac.new(salt, digestmod=hashlib.sha256)\n    mac.update(ikm)\n    return mac.digest()",
+     expect="silent", more=[(HASHF, _HKDEF, "_UNSALTED = hmac.new(b\"\", digestmod=hashlib.sha256)\n\n\n" + _HKDEF, 1)])
+# final exponentiation: easy part by conjugation (x^(p^6) is w -> -w) is the same map; a tripled hard part is not
+OPTP = "py_ecc/optimized_bls12_381/optimized_pairing.py"
+_FE6 = "    p3 = exp_by_p(exp_by_p(exp_by_p(exp_by_p(exp_by_p(exp_by_p(p2)))))) / p2"
+_FEDEF = "def final_exponentiate(p: FQ12) -> FQ12:"
+_CONJ = "def conjugate(x: FQ12) -> FQ12:\n    return FQ12([-c if i % 2 else c for i, c in enumerate(x.coeffs)])\n\n\n"
+case("c12-twin-easy-part-by-conjugation", ["C12", "C05", "C20"], OPTP, _FE6, "    p3 = conjugate(p2) / p2", expect="silent",
+     more=[(OPTP, _FEDEF, _CONJ + _FEDEF, 1)])
+case("c12-conjugation-wrong-parity", ["C12"], OPTP, _FE6, "    p3 = conjugate(p2) / p2", rule="C12.R1",
+     more=[(OPTP, _FEDEF, _CONJ.replace("-c if i % 2 else c", "c if i % 2 else -c") + _FEDEF, 1)])
+case("c12-hard-part-tripled", ["C12"], OPTP, "    return p3**cofactor", "    return p3**cofactor * p3**cofactor * p3**cofactor", rule="C12.R1")
+# FQP + int: refused today; adding the scalar to every coefficient is not the field's addition
+FE = "py_ecc/fields/field_elements.py"
+case("c08-fqp-add-int-to-every-coefficient", ["C08"], FE,
+     "    def __add__(self: T_FQP, other: T_FQP) -> T_FQP:\n",
+     "    def __add__(self: T_FQP, other: T_FQP) -> T_FQP:\n        if isinstance(other, int):\n"
+     "            return type(self)([c + other for c in self.coeffs])\n", rule="C08.R2")
+case("c08-twin-fqp-add-int-embedded", ["C08", "C14", "C13"], FE,
+     "    def __add__(self: T_FQP, other: T_FQP) -> T_FQP:\n",
+     "    def __add__(self: T_FQP, other: T_FQP) -> T_FQP:\n        if isinstance(other, int):\n"
+     "            return type(self)([self.coeffs[0] + other] + list(self.coeffs[1:]))\n", expect="silent")
